@@ -1986,9 +1986,17 @@ class Process(Instance):
             sensitivity_list = "all"
         else:
             assert isinstance(self._sensitivity, _SensitivityList)
-            sensitivity_list = ", ".join(
-                self._scope.format_value(item) for item in self._sensitivity.signals
-            )
+            # only names of signals are allowed in a sensitivity list, slices
+            # and type casts of a signal are represented by the signal itself
+            roots = []
+
+            for item in self._sensitivity.signals:
+                root = item._root if isinstance(item, TypeQualifier) else item
+
+                if not any(root is other for other in roots):
+                    roots.append(root)
+
+            sensitivity_list = ", ".join(self._scope.format_value(root) for root in roots)
 
         proc_name = self._scope.lookup_name(self)
 
